@@ -281,7 +281,33 @@ class _State:
                 return _Alts(self._each(a) + self._each(b))
             if a is None and b is None:
                 return None
+            if (a is None and getattr(b, "tentative", False) and not b.items) or (b is None and getattr(a, "tentative", False) and not a.items):
+                return None  # `x.get_list() if x else []`: an ordinary list
             raise AnalysisError(f"{f.loc(e)}: conditional expression mixes an element with something else")
+        if isinstance(e, (ast.ListComp, ast.GeneratorExp)) and len(e.generators) == 1 and not e.generators[0].is_async:
+            # `[E.x(v) for v in vs if c]`: one element per item - the loop form `for v in vs: (if c:) children.append(E.x(v))`
+            gen = e.generators[0]
+            loop = ast.For(target=gen.target, iter=gen.iter, body=[], orelse=[])
+            ast.copy_location(loop, e)
+            try:
+                loop._parent = getattr(e, "_parent", None)  # type: ignore[attr-defined]
+            except Exception:
+                pass
+            inner = ctx + [("for", loop, None)]
+            for cond in gen.ifs:
+                fake_if = ast.If(test=cond, body=[], orelse=[])
+                ast.copy_location(fake_if, cond)
+                inner = inner + [("if", fake_if, True)]
+            item = self.ev(e.elt, inner)
+            if isinstance(item, (Elem, _Alts)):
+                it = item if isinstance(item, Elem) else Alt([[y] for y in item.elems])
+                return _ElemList([self._wrap(it, inner[len(ctx):])], ctx)
+            return None
+        if isinstance(e, ast.List) and not e.elts:
+            # `children = []` ... `children.append(E.x(..))` ... `E.tag(*children)`: tentatively a list of elements (dropped again if anything else is appended)
+            lst0 = _ElemList([], ctx)
+            lst0.tentative = True
+            return lst0
         if isinstance(e, (ast.List, ast.Tuple)) and e.elts:
             vals = [self.ev(x, ctx) for x in e.elts]
             if all(isinstance(v, (Elem, _Alts)) for v in vals):
@@ -435,12 +461,17 @@ class _State:
                 if c.func.attr == "append" and len(c.args) == 1:
                     child = self.ev(c.args[0], ctx)
                     if not isinstance(child, (Elem, _Alts)):
+                        if getattr(lst, "tentative", False) and not lst.items:
+                            self.env.pop(c.func.value.id, None)  # an ordinary list after all
+                            continue
                         raise AnalysisError(f"{f.loc(s)}: append of a non-element to an element list")
                     item = child if isinstance(child, Elem) else Alt([[y] for y in child.elems])
                     i = 0
                     while i < len(lst.ctx) and i < len(ctx) and lst.ctx[i][1] is ctx[i][1] and lst.ctx[i][2] == ctx[i][2]:
                         i += 1
                     lst.items.append(self._wrap(item, ctx[i:]))
+                elif getattr(lst, "tentative", False) and not lst.items:
+                    self.env.pop(c.func.value.id, None)
                 else:
                     raise AnalysisError(f"{f.loc(s)}: unrecognised operation on an element list: {norm(c)[:60]}")
             elif isinstance(s, ast.Expr) and isinstance(s.value, ast.Call) and isinstance(s.value.func, ast.Attribute):
